@@ -389,50 +389,29 @@ def r4_installed_reader(chk, fx):
     if not ok:
         return
     w = wl[0]
-    base, rng = T.peel(w["args"][0]), T.peel(w["args"][1])
-    lets = {}
-    for s in T.walk(cb):
-        if s.get("k") == "LetStmt" and s.get("init") is not None:
-            lets[T.pat_str(s["pat"])] = s
-    # base <- route_filter.address
-    bsrc = None
-    if base.get("k") == "Var" and base["name"] in lets:
-        bsrc = _var_under(lets[base["name"]]["init"])
+    # what reaches with_length_range, read off the explored paths of the closure (however the splitting and parsing is spelled): the base
+    # is the parsed <address>; the bounds are the two halves of prefix_length_range split once at the separator, parsed, in that order
+    from vlib import absint as A
+    import re as _re
+    seen = set()
+    for p in A.Interp(fx, crates=(AGENT,), max_paths=800).explore(clo["def"]):
+        for e in p.trace:
+            if e[0] == "call" and e[1].endswith("::with_length_range") and len(e[2]) >= 2:
+                seen.add((A.vstr(e[2][0]), A.vstr(e[2][1])))
+    bsrc, order_ok, sep = None, False, None
+    if len(seen) == 1:
+        bv, rv = list(seen)[0]
+        m = _re.fullmatch(r"(?:\w+::)*\w+\(«param:(\w+)»\.address\)→Ok\.0", bv)
+        bsrc = "%s.address" % m.group(1) if m and "parse" in bv else bv[:60]
+        m2 = _re.fullmatch(r"RangeInclusive::new\(str::parse\(str::split_once\(«param:(\w+)»\.prefix_length_range, '(.)'\)→Some\.0\.0\)→Ok\.0, "
+                           r"str::parse\(str::split_once\(«param:\1»\.prefix_length_range, '\2'\)→Some\.0\.1\)→Ok\.0\)", rv)
+        if m2:
+            order_ok, sep = True, m2.group(2)
     chk.instance("C01/R4", "range base is parsed from the route-filter's <address> (%s)" % bsrc, clo["def"], loc_of(w.get("sp")),
-                 holds=bsrc == "route_filter.address", key="C01/R4 try_into_ranges base-from-address")
-    # (lower, upper) order through split_once -> closure -> tuple -> RangeInclusive::new
-    ok = rng.get("k") == "Call" and rng.get("fn", "").endswith("RangeInclusive::<Idx>::new") or (rng.get("k") == "Call" and "RangeInclusive" in rng.get("fn", ""))
-    order_ok, sep = False, None
-    if ok and len(rng["args"]) == 2:
-        a0, a1 = T.peel(rng["args"][0]), T.peel(rng["args"][1])
-        for ps, s in lets.items():
-            tb = _tuple_binds(s["pat"])
-            if tb and a0.get("k") == "Var" and a1.get("k") == "Var" and tb == (a0["name"], a1["name"]):
-                init = s["init"]
-                sp = [c for c in T.calls(init) if c["fn"].endswith("::split_once")]
-                if len(sp) == 1 and _var_under(sp[0]["args"][0]) == "route_filter.prefix_length_range":
-                    sepn = T.peel(sp[0]["args"][1])
-                    sep = sepn.get("v") if sepn.get("k") == "Lit" else None
-                    # the and_then closure maps (l, u) -> Ok((parse(l), parse(u)))
-                    at = [c for c in T.calls(init) if T.short(c["fn"], 2) in ("Result::and_then", "Result::map", "Option::map", "Option::and_then")]
-                    conv_ok = True
-                    n_conv = 0
-                    for c in at:
-                        cl = _closure_thir(fx, T.peel(c["args"][1]))
-                        if cl is None:
-                            continue
-                        pb = None
-                        for p in cl.get("params", []):
-                            if p.get("pat") is not None:
-                                pb = _tuple_binds(p["pat"])
-                        tups = [x for x in T.walk(T.norm(cl["body"])) if x.get("k") == "Tuple" and len(x.get("fields", [])) == 2]
-                        if pb and tups:
-                            n_conv += 1
-                            tu = tups[0]
-                            conv_ok = conv_ok and (_var_under(tu["fields"][0]), _var_under(tu["fields"][1])) == pb
-                    order_ok = conv_ok and n_conv >= 1
+                 holds=bool(bsrc) and bsrc.endswith(".address"), key="C01/R4 try_into_ranges base-from-address")
     chk.instance("C01/R4", "length bounds keep their order: split_once(prefix_length_range, %r) -> (l,u) -> (parse l, parse u) -> lower..=upper" % sep,
-                 clo["def"], loc_of(w.get("sp")), holds=bool(order_ok), key="C01/R4 try_into_ranges bounds-order")
+                 clo["def"], loc_of(w.get("sp")), holds=bool(order_ok), key="C01/R4 try_into_ranges bounds-order",
+                 detail=None if order_ok else str(sorted(seen))[:200])
     # writer/reader agreement on the leaf format
     wr = None
     # the template is in write_route_filter or in a private helper of the payload writer it calls (any non-test body of policies::load
